@@ -1247,6 +1247,7 @@ def run(ctx: Context):
 
     # ---- 9. the old boundary segments an update fetches ---------------------
     upd_obs = None
+    upd_exit = []        # per observation: the attributes of `self` when _update returns (one dict per completing path)
     with ctx.rule("C09.9", "R6", "the in-place update fetches, as old boundary segments, the segments Publish pushes "
                   "first and last: update_range = (offset // S, (offset + len - 1) // S) whenever the write ends "
                   "before the old end of file", expected=1) as r:
@@ -1273,7 +1274,7 @@ def run(ctx: Context):
                     sim = _Sim(idx, observe={"_update_servermap"})
                     heap = {"self": {"get_size()": Z, "_version": _verinfo(pos, None, S, Z, 3, 10), "is_mutable()": True},
                             "data": {"get_size()": L}}
-                    sim.run(up, {"self": _Ref("self"), ups[0]: _Ref("data"), ups[1]: off}, heap)
+                    outs9 = sim.run(up, {"self": _Ref("self"), ups[0]: _Ref("data"), ups[1]: off}, heap)
                     runs += 1
                     for (ofn, call, args, kwargs) in sim.seen:
                         v = kwargs.get("update_range", args[ur_i] if ur_i < len(args) else None)
@@ -1283,6 +1284,7 @@ def run(ctx: Context):
                             raise AnalysisError("cannot evaluate the update_range of %s for a %d-byte write at %d of a "
                                                 "%d-byte file: %r" % (short(ofn), L, off, Z, v))
                         obs.append((Z, off, L, v[0], v[1], ofn, call))
+                        upd_exit.append([dict(hp9["self"]) for (_r9, _f9, hp9) in outs9])
         r.count(runs)
         if not obs:
             raise AnchorVanished("no in-place update reaches _update_servermap(update_range=...) from _update")
@@ -1360,6 +1362,396 @@ def run(ctx: Context):
                             "all of them are appends at offset == size where size is 0 or a multiple of the segment size"
                             if len(aligned) == len(badobs) else
                             "%d of them are not appends at a segment-aligned end of file" % (len(badobs) - len(aligned))))
+
+    # ---- 12. head / tail trimming of a ranged read ---------------------------
+    with ctx.rule("C09.12", "R6", "Retrieve._set_segment hands the consumer exactly the bytes of the decoded segment "
+                  "that lie in [offset, offset + size) and moves on to the next segment; decided by evaluating the "
+                  "function's own statements over boundary reads", expected=1) as r:
+        _need("the segment size of C09.8", S3)
+        S = S3
+        ss = idx.func(RET + "._set_segment")
+        seg_p = first_positional_params(ss)[0]
+        wr = [c for c in calls_in_func(ss, "write")]
+        if not wr:
+            raise AnchorVanished("_set_segment no longer writes to the consumer")
+        r.site(ss, wr[0], "delivered bytes")
+        pts = _boundary_points(S)
+        bad, runs = None, 0
+        for D in [x for x in pts if x >= 1]:
+            if bad:
+                break
+            for off in [x for x in pts if x < D]:
+                if bad:
+                    break
+                for size in sorted({1, 2, D - off, S - off % S, min(D - off, S + 1), min(D - off, 2 * S)}):
+                    if size < 1 or off + size > D or bad:
+                        continue
+                    first, last = off // S, (off + size - 1) // S
+                    for c in sorted({first, last, (first + last) // 2}):
+                        sim = _Sim(idx, observe={"write"})
+                        heap = {"self": {"_read_length": size, "_offset": off, "_segment_size": S, "_current_segment": c,
+                                         "_start_segment": first, "_last_segment": last, "_verify": False,
+                                         "_data_length": D, "_consumer": _Ref("consumer")}, "consumer": {}}
+                        plain = _Data([("file", c * S, min((c + 1) * S, D))])
+                        outs = sim.run(ss, {"self": _Ref("self"), seg_p: plain}, heap)
+                        runs += 1
+                        what = "segment %d of a read of [%d, %d) of a %d-byte file (S=%d)" % (c, off, off + size, D, S)
+                        want = _Data([("file", max(off, c * S), min(off + size, (c + 1) * S))])
+                        if len(outs) != 1:
+                            bad = "%s: _set_segment %s" % (what, "raises" if not outs else "could not be evaluated "
+                                                           "(%d undetermined paths)" % len(outs))
+                            break
+                        got = _Data()
+                        for (_f, _c, args, kwargs) in sim.seen:
+                            if len(args) != 1 or kwargs or not (isinstance(args[0], _Data) or args[0] == b""):
+                                raise AnalysisError("cannot evaluate what _set_segment writes for %s: %r" % (what, args))
+                            got = got + args[0]
+                        if got != want:
+                            bad = "for %s the consumer is given %s, the bytes of the read in that segment are %s" % (
+                                what, got, want)
+                            break
+                        nxt = outs[0][2]["self"].get("_current_segment", UNK)
+                        if nxt != c + 1:
+                            bad = "after %s the next segment to fetch is %s, not %d" % (what, nxt, c + 1)
+                            break
+        r.count(runs)
+        if bad:
+            r.violation(ss, ss.loc(wr[0]), bad)
+
+    # ---- 13. stitching of old boundary segments and new data ------------------
+    with ctx.rule("C09.13", "R6", "TransformingUploadable hands Publish, segment by segment, the new file contents: old "
+                  "bytes of the start segment before the write offset, the new data, old bytes of the end segment "
+                  "behind the written range; decided by evaluating __init__ and read over boundary updates",
+                  expected=2) as r:
+        _need("the segment size of C09.8", S3)
+        S = S3
+        tui = idx.func("mutable.publish:TransformingUploadable.__init__")
+        tur = idx.func("mutable.publish:TransformingUploadable.read")
+        ips = first_positional_params(tui)          # data, offset, segment_size, start, end
+        rps = first_positional_params(tur)          # length
+        if len(ips) < 5 or len(rps) < 1:
+            raise AnchorVanished("TransformingUploadable(data, offset, segment_size, start, end).read(length) changed")
+        r.site(tui, None, "uploadable state")
+        rets = [n for n in tur.cfg().nodes if is_return(n)]
+        if not rets:
+            raise AnchorVanished("TransformingUploadable.read no longer returns data")
+        r.site(tur, rets[-1].ast, "stitched segment")
+
+        def newdata(L):
+            def rd(hp, args):
+                n = args[0] if len(args) == 1 else UNK
+                at = hp["newdata"]["pos()"]
+                if not isinstance(n, int) or isinstance(n, bool):
+                    return UNK
+                n = (L - at) if n < 0 else min(n, L - at)          # a file-like read
+                hp["newdata"]["pos()"] = at + n
+                return [_Data([("new", at, at + n)])]
+            return {"get_size()": L, "pos()": 0, "read(*)": rd}
+
+        pts = _boundary_points(S)
+        bad, runs = None, 0
+        for Z in [x for x in pts if x >= 1]:
+            if bad:
+                break
+            for off in [x for x in pts if x <= Z and x // S < _div_ceil(Z, S)]:       # the in-place gate of _update
+                if bad:
+                    break
+                lens = {1, 2, S - 1, S, S + 1, 2 * S, 2 * S + 1}
+                if Z > off:
+                    lens |= {Z - off, Z - off - 1, Z - off + 1}
+                lens |= {S - off % S, S - off % S + 1, S - off % S - 1}
+                for L in sorted(x for x in lens if x >= 1):
+                    E = off + L
+                    s0 = off // S
+                    e0 = (E - 1) // S if E < Z else s0
+                    newlen = max(Z, E)
+                    nseg = _div_ceil(newlen, S)
+                    what = "a %d-byte write at offset %d of a %d-byte file (S=%d)" % (L, off, Z, S)
+                    heap = {"self": {}, "newdata": newdata(L)}
+                    fr = {"self": _Ref("self"), ips[0]: _Ref("newdata"), ips[1]: off, ips[2]: S,
+                          ips[3]: _Data([("old", s0 * S, min((s0 + 1) * S, Z))]),
+                          ips[4]: _Data([("old", e0 * S, min((e0 + 1) * S, Z))])}
+                    outs = _Sim(idx).run(tui, fr, heap)
+                    runs += 1
+                    if len(outs) != 1:
+                        bad = (tui, None, "TransformingUploadable.__init__ %s for %s" % (
+                            "raises" if not outs else "could not be evaluated", what))
+                        break
+                    hp = outs[0][2]
+                    size = _Sim(idx).run(idx.func("mutable.publish:TransformingUploadable.get_size"),
+                                         {"self": _Ref("self")}, copy.deepcopy(hp))
+                    if len(size) != 1 or size[0][0] != E:
+                        bad = (tui, None, "for %s the uploadable reports a size of %s; Publish takes the end of the written "
+                               "range (%d) from it" % (what, size[0][0] if len(size) == 1 else "?", E))
+                        break
+                    for c in range(s0, (E - 1) // S + 1):
+                        n = S if c + 1 < nseg else newlen - c * S
+                        outs = _Sim(idx).run(tur, {"self": _Ref("self"), rps[0]: n}, hp)
+                        runs += 1
+                        if len(outs) != 1:
+                            bad = (tur, rets[-1].ast, "read(%d) for segment %d of %s %s" % (
+                                n, c, what, "raises" if not outs else "could not be evaluated"))
+                            break
+                        got, _fr, hp = outs[0]
+                        want = _Data([("old", c * S, min(off, c * S + n)),
+                                      ("new", max(c * S, off) - off, min(c * S + n, E) - off),
+                                      ("old", max(E, c * S), c * S + n)])
+                        if isinstance(got, list) and all(isinstance(x, _Data) for x in got):
+                            got = sum(got, _Data())
+                        if not isinstance(got, _Data):
+                            raise AnalysisError("cannot evaluate what read(%d) returns for segment %d of %s: %r" % (
+                                n, c, what, got))
+                        if got != want:
+                            bad = (tur, rets[-1].ast, "for %s, segment %d (%d bytes) is built as %s; the new file has %s "
+                                   "there" % (what, c, n, got, want))
+                            break
+                    if bad:
+                        break
+        r.count(runs)
+        if bad:
+            r.violation(bad[0], bad[0].loc(bad[1]) if bad[1] is not None else bad[0].loc(), bad[2])
+
+    # ---- 14. the fetched boundary segments keep their roles on the way to the uploadable ------------------
+    with ctx.rule("C09.14", "R5", "the old start segment, old end segment and old block hash tree fetched by the "
+                  "servermap update reach TransformingUploadable(start, end) and Publish.update(blockhashes) in their "
+                  "own roles: update_range -> get_block_and_salt order -> update_data tuple -> decode(segment number) "
+                  "-> gatherResults order -> constructor arguments", expected=8) as r:
+        _need("the evaluated update ranges of C09.9", upd_obs)
+        # (a) ServermapUpdater.__init__: which attribute holds update_range[0] / [1]
+        smi = idx.func(SMU + ".__init__")
+        if "update_range" not in smi.params:
+            raise AnchorVanished("ServermapUpdater.__init__ no longer takes update_range")
+        smn = FlowNorm(smi)
+        seg_attr = {}
+        for n in smi.cfg().nodes:
+            if n.kind == "stmt" and isinstance(n.ast, ast.Assign):
+                for t in n.ast.targets:
+                    pth = attr_path(t)
+                    m = re.match(r"^update_range\[(\d+)\]$", smn.norm(n, n.ast.value))
+                    if pth and pth.startswith("self.") and m:
+                        r.site(smi, n.ast, "update_range[%s] -> %s" % (m.group(1), pth))
+                        if pth in seg_attr and seg_attr[pth] != int(m.group(1)):
+                            r.violation(smi, smi.loc(n.ast), "%s is taken from two update_range positions" % pth)
+                        seg_attr[pth] = int(m.group(1))
+        if sorted(seg_attr.values()) != [0, 1]:
+            raise AnchorVanished("ServermapUpdater.__init__ no longer stores update_range[0] and update_range[1]")
+        role_of_attr = {a: ("start" if i == 0 else "end") for a, i in seg_attr.items()}
+        # (b) the fetch: order of the Deferreds gathered for _got_update_results_one_share
+        cg = get_callgraph(idx)
+        fetch = None
+        for cs in cg.calls_named("get_block_and_salt"):
+            if cs.fn.module is smi.module and cs.call.args and attr_path(cs.call.args[0]) in role_of_attr:
+                fetch = cs.fn
+        if fetch is None:
+            raise AnchorVanished("no get_block_and_salt(self.start_segment / self.end_segment) in the servermap updater")
+        regs = [x for x in registrations(fetch) if x.kind == "cb" and x.target_name().endswith("_got_update_results_one_share")]
+        if len(regs) != 1:
+            raise AnchorVanished("%s no longer registers _got_update_results_one_share once" % short(fetch))
+        fcfg = fetch.cfg()
+        gat = None
+        for n in fcfg.nodes:
+            v = assign_value(n, regs[0].recv) if regs[0].recv else None
+            if isinstance(v, ast.Call) and call_tail(v) in ("gatherResults", "DeferredList") and v.args:
+                gat = (n, v)
+        if gat is None:
+            raise AnchorVanished("%s: the Deferred given to _got_update_results_one_share is not a gatherResults(...)" % short(fetch))
+
+        def fetched_role(e):
+            if isinstance(e, ast.Call):
+                t = call_tail(e)
+                if t == "get_block_and_salt" and e.args:
+                    return role_of_attr.get(attr_path(e.args[0]), "?" + norm_plain(e.args[0]))
+                return {"get_verinfo": "verinfo", "get_blockhashes": "bht"}.get(t, "?" + t)
+            return "?" + norm_plain(e)
+        produced = _gathered(fetch, gat[0], gat[1].args[0], fetched_role)
+        r.site(fetch, gat[1], "fetched in the order %s" % produced)
+        # (c) _got_update_results_one_share: results[i] -> update_data tuple
+        gu = idx.func(SMU + "._got_update_results_one_share")
+        gun = FlowNorm(gu, depth=8)
+        res_p = first_positional_params(gu)[0]
+        datum = None
+        for n in gu.cfg().nodes:
+            for c in node_calls(n):
+                if call_tail(c) == "set_update_data_for_share_and_verinfo" and len(c.args) >= 3:
+                    v = gun.resolve(n, c.args[2])
+                    at = _node_of(gu, v) if isinstance(v, ast.Tuple) else n
+                    if not isinstance(v, ast.Tuple):
+                        raise AnalysisError("update data stored by %s is %s, not a tuple" % (short(gu), src(gu, c.args[2])))
+                    datum = []
+                    for e in v.elts:
+                        m = re.match(r"^%s\[(\d+)\]$" % re.escape(res_p), gun.norm(at, e))
+                        i = int(m.group(1)) if m else None
+                        datum.append(produced[i] if i is not None and i < len(produced) else "?" + gun.norm(at, e))
+                    r.site(gu, c, "update data is %s" % datum)
+        if datum is None:
+            raise AnchorVanished("_got_update_results_one_share no longer stores the update data")
+        for need in ("bht", "start", "end"):
+            r.require(datum.count(need) == 1, gu, gu.loc(), "the update data recorded per share is %s; it must carry the "
+                      "old block hashes, the old start segment and the old end segment once each" % datum)
+        # (c') the (verinfo, data) pairs of ServerMap.update_data
+        sud = idx.func("mutable.servermap:ServerMap.set_update_data_for_share_and_verinfo")
+        sps = first_positional_params(sud)
+        pair_pos = None
+        for c in calls_in_func(sud, "append"):
+            if c.args and isinstance(c.args[0], ast.Tuple) and len(sps) >= 3:
+                names = [attr_path(e) for e in c.args[0].elts]
+                if sps[2] in names:
+                    pair_pos = names.index(sps[2])
+                    r.site(sud, c, "update data kept at position %d of the stored entry" % pair_pos)
+        if pair_pos is None:
+            raise AnchorVanished("set_update_data_for_share_and_verinfo no longer appends (verinfo, data)")
+        # (d) _decode_and_decrypt_segments: datum[i] -> dict -> decode(dict, self.<segment attr>) -> gather order
+        dd = idx.func(MFV + "._decode_and_decrypt_segments")
+        ddn = FlowNorm(dd, depth=8)
+        role_of_dict, bases = {}, set()
+        for n in dd.cfg().nodes:
+            if n.kind == "stmt" and isinstance(n.ast, ast.Assign) and len(n.ast.targets) == 1:
+                t, v = n.ast.targets[0], n.ast.value
+                if isinstance(t, ast.Subscript) and isinstance(t.value, ast.Name) and isinstance(v, ast.Subscript) \
+                        and isinstance(v.value, ast.Name) and isinstance(v.slice, ast.Constant) and isinstance(v.slice.value, int):
+                    i = v.slice.value
+                    role_of_dict[t.value.id] = datum[i] if 0 <= i < len(datum) else "?%s[%d]" % (v.value.id, i)
+                    bases.add(v.value.id)
+        if len(bases) != 1 or len(role_of_dict) < 3:
+            raise AnchorVanished("_decode_and_decrypt_segments no longer splits one update datum into per-share tables")
+        base = bases.pop()
+        sel = [e for e in all_defs(dd).get(base, []) if e is not None]
+        picks = set()
+        for e in sel:
+            for dv in [e] + [x for nm in names_in(e) for x in all_defs(dd).get(nm, []) if x is not None]:
+                for x in ast.walk(dv):
+                    if isinstance(x, ast.ListComp) and isinstance(x.elt, ast.Subscript) and isinstance(x.elt.slice, ast.Constant):
+                        picks.add(x.elt.slice.value)
+        r.site(dd, None, "update datum taken from position %s of the stored entries" % sorted(picks))
+        r.require(picks == {pair_pos}, dd, dd.loc(), "_decode_and_decrypt_segments takes the update datum from position %s "
+                  "of the (verinfo, data) entries; ServerMap keeps it at position %d" % (sorted(picks), pair_pos))
+        seg_of_role, role_of_var = {}, {}
+        for n in dd.cfg().nodes:
+            if n.kind == "stmt" and isinstance(n.ast, ast.Assign) and isinstance(n.ast.value, ast.Call) \
+                    and len(n.ast.targets) == 1 and isinstance(n.ast.targets[0], ast.Name):
+                c = n.ast.value
+                if call_tail(c) == "decode" and len(c.args) == 2 and isinstance(c.args[0], ast.Name):
+                    ro = role_of_dict.get(c.args[0].id, "?" + c.args[0].id)
+                    r.site(dd, c, "decode of the old %s segment" % ro)
+                    seg_of_role[ro] = (attr_path(c.args[1]), c)
+                    role_of_var[n.ast.targets[0].id] = ro
+                elif call_tail(c) == "succeed" and len(c.args) == 1 and isinstance(c.args[0], ast.Name):
+                    role_of_var[n.ast.targets[0].id] = role_of_dict.get(c.args[0].id, "?" + c.args[0].id)
+        if set(seg_of_role) != {"start", "end"}:
+            r.violation(dd, dd.loc(), "the segments decoded for the update are %s; the uploadable needs the old start "
+                        "segment and the old end segment" % sorted(seg_of_role))
+        for ro, (ap, c) in sorted(seg_of_role.items()):
+            if not (ap and ap.startswith("self.")):
+                raise AnalysisError("segment number of the decoded %s segment is %s" % (ro, src(dd, c.args[1])))
+            which = 3 if ro == "start" else 4
+            for o, exits in zip(upd_obs, upd_exit):
+                vals = {me.get(ap[5:], UNK) for me in exits}
+                if vals != {o[which]}:
+                    r.violation(dd, dd.loc(c), "the old %s segment is decoded as segment number %s = %s, but the segment "
+                                "fetched for a %d-byte write at offset %d of a %d-byte file is number %d (the tail "
+                                "segment is trimmed and decoded differently from the others)" % (
+                                    ro, ap, sorted(map(str, vals)), o[2], o[1], o[0], o[which]))
+                    break
+        gathered = None
+        for n in dd.cfg().nodes:
+            if is_return(n):
+                v = ddn.resolve(n, n.ast.value)
+                if isinstance(v, ast.Call) and call_tail(v) in ("gatherResults",) and v.args:
+                    gathered = _gathered(dd, n, v.args[0], lambda e: role_of_var.get(e.id, "?" + e.id)
+                                         if isinstance(e, ast.Name) else "?" + norm_plain(e))
+                    r.site(dd, v, "handed on in the order %s" % gathered)
+        if gathered is None:
+            raise AnchorVanished("_decode_and_decrypt_segments no longer returns gatherResults([...])")
+        # (e) _build_uploadable_and_finish: positions -> constructor / Publish.update parameters
+        bu = idx.func(MFV + "._build_uploadable_and_finish")
+        bun = FlowNorm(bu, depth=8)
+        bps = first_positional_params(bu)            # segments_and_bht, data, offset
+        tui = idx.func("mutable.publish:TransformingUploadable.__init__")
+        ips = first_positional_params(tui)
+        pu = idx.func(PUB + ".update")
+        pps = first_positional_params(pu)
+
+        def passed(fn_, call, params):
+            got = {}
+            for i, a in enumerate(call.args):
+                if i < len(params):
+                    got[params[i]] = a
+            for kw in call.keywords:
+                if kw.arg:
+                    got[kw.arg] = kw.value
+            return got
+
+        def role_at(node, e):
+            m = re.match(r"^%s\[(\d+)\]$" % re.escape(bps[0]), bun.norm(node, e))
+            if m and int(m.group(1)) < len(gathered):
+                return gathered[int(m.group(1))]
+            return "?" + bun.norm(node, e)
+        ctor = upd = None
+        for n in bu.cfg().nodes:
+            for c in node_calls(n):
+                if call_tail(c) == "TransformingUploadable":
+                    ctor = (n, c)
+                elif call_tail(c) == "update" and len(c.args) + len(c.keywords) >= 4:
+                    upd = (n, c)
+        if ctor is None or upd is None or len(ips) < 5 or len(pps) < 4 or len(bps) < 3:
+            raise AnchorVanished("_build_uploadable_and_finish no longer builds TransformingUploadable and calls Publish.update")
+        n, c = ctor
+        got = passed(bu, c, ips)
+        r.site(bu, c, "uploadable arguments")
+        for prm, want in ((ips[3], "start"), (ips[4], "end")):
+            ro = role_at(n, got[prm]) if prm in got else "nothing"
+            r.require(ro == want, bu, bu.loc(c), "TransformingUploadable receives the old %s as its `%s` (the old %s "
+                      "segment); the bytes around the written range are then stitched from the wrong segment" % (
+                          ro if not ro.startswith("?") else ro[1:], prm, want))
+        for prm, want in ((ips[0], bps[1]), (ips[1], bps[2])):
+            r.require(prm in got and attr_path(got[prm]) == want, bu, bu.loc(c), "TransformingUploadable's `%s` is %s, "
+                      "not the `%s` of the update" % (prm, src(bu, got[prm]) if prm in got else "missing", want))
+        n, c = upd
+        got = passed(bu, c, pps)
+        r.site(bu, c, "Publish.update arguments")
+        ro = role_at(n, got[pps[2]]) if pps[2] in got else "nothing"
+        r.require(ro == "bht", bu, bu.loc(c), "Publish.update receives the old %s as its `%s` (the old block hash "
+                  "trees it patches)" % (ro if not ro.startswith("?") else ro[1:], pps[2]))
+        u0 = bun.resolve(n, got[pps[0]]) if pps[0] in got else None
+        r.require(u0 is ctor[1], bu, bu.loc(c), "Publish.update is not given the TransformingUploadable built here")
+        r.require(pps[1] in got and attr_path(got[pps[1]]) == bps[2], bu, bu.loc(c),
+                  "Publish.update's `%s` is %s, not the offset of the update" % (
+                      pps[1], src(bu, got[pps[1]]) if pps[1] in got else "missing"))
+        r.require(pps[3] in got and attr_path(got[pps[3]]) == "self._version", bu, bu.loc(c),
+                  "Publish.update's `%s` is %s, not the version being updated" % (
+                      pps[3], src(bu, got[pps[3]]) if pps[3] in got else "missing"))
+
+
+def _gathered(fn, node, e, role):
+    """Roles, in order, of the Deferreds handed to gatherResults: a list literal, or a local list that is created
+    empty and appended to on the straight-line path up to `node`."""
+    if isinstance(e, (ast.List, ast.Tuple)):
+        return [role(x) for x in e.elts]
+    if not isinstance(e, ast.Name):
+        raise AnalysisError("cannot decide what %s gathers in %s" % (src(fn, e), short(fn)))
+    cfg = fn.cfg()
+    out, cur, steps = [], node, 0
+    while True:
+        steps += 1
+        preds = [(s_, lab) for (s_, lab) in cfg.pred[cur.id] if lab != "exc"]
+        if len(preds) != 1 or steps > 200:
+            raise AnalysisError("the list %s gathered in %s is not filled on one straight-line path" % (e.id, short(fn)))
+        cur = cfg.nodes[preds[0][0]]
+        if cur.kind == "stmt" and isinstance(cur.ast, ast.Expr) and isinstance(cur.ast.value, ast.Call):
+            c = cur.ast.value
+            if isinstance(c.func, ast.Attribute) and attr_path(c.func.value) == e.id:
+                if c.func.attr == "append" and len(c.args) == 1:
+                    out.append(role(c.args[0]))
+                    continue
+                raise AnalysisError("%s.%s(...) in %s: cannot decide the order of the gathered results" % (
+                    e.id, c.func.attr, short(fn)))
+        v = assign_value(cur, e.id)
+        if v is not None:
+            if isinstance(v, (ast.List, ast.Tuple)):
+                return [role(x) for x in v.elts] + out[::-1]
+            raise AnalysisError("the list %s gathered in %s starts as %s" % (e.id, short(fn), src(fn, v)))
+        if e.id in node_stores(cur):
+            raise AnalysisError("the list %s gathered in %s is rebound" % (e.id, short(fn)))
 
 
 def _boundary_points(S):
@@ -1715,6 +2107,67 @@ class _Dead(Exception):
     """The simulated path raises."""
 
 
+class _Data(object):
+    """An abstract byte string: runs (source tag, lo, hi) of bytes lo..hi-1 of the named source.  Supports what the
+    stitching code does with bytes: len, slicing, concatenation (also with the empty bytes literal), equality."""
+    __slots__ = ("runs",)
+
+    def __init__(self, runs=()):
+        norm = []
+        for (t, lo, hi) in runs:
+            if hi <= lo:
+                continue
+            if norm and norm[-1][0] == t and norm[-1][2] == lo:
+                norm[-1] = (t, norm[-1][1], hi)
+            else:
+                norm.append((t, lo, hi))
+        self.runs = tuple(norm)
+
+    def __len__(self):
+        return sum(hi - lo for (_t, lo, hi) in self.runs)
+
+    def __getitem__(self, i):
+        if not isinstance(i, slice) or i.step not in (None, 1):
+            raise TypeError("only plain slices of abstract data are modelled")
+        a, b, _st = i.indices(len(self))
+        out, at = [], 0
+        for (t, lo, hi) in self.runs:
+            s_, e_ = max(a, at), min(b, at + hi - lo)
+            if s_ < e_:
+                out.append((t, lo + s_ - at, lo + e_ - at))
+            at += hi - lo
+        return _Data(out)
+
+    def __add__(self, o):
+        if isinstance(o, _Data):
+            return _Data(self.runs + o.runs)
+        if isinstance(o, bytes) and not o:
+            return self
+        return NotImplemented
+
+    def __radd__(self, o):
+        if isinstance(o, bytes) and not o:
+            return self
+        return NotImplemented
+
+    def __eq__(self, o):
+        if isinstance(o, bytes) and not o:
+            return not self.runs
+        return isinstance(o, _Data) and o.runs == self.runs
+
+    def __ne__(self, o):
+        return not self.__eq__(o)
+
+    def __hash__(self):
+        return hash(self.runs)
+
+    def __deepcopy__(self, memo):
+        return self
+
+    def __repr__(self):
+        return "+".join("%s[%d:%d]" % r for r in self.runs) or "(no bytes)"
+
+
 def _has_unk(v):
     if v is UNK:
         return True
@@ -1748,9 +2201,23 @@ _EXTERNAL = {"pyutil.mathutil.div_ceil": _div_ceil,
 _INLINE_CACHE = {}
 
 
+_HELPER_CACHE = {}
+
+
 def _simple_helper(m):
+    hit = _HELPER_CACHE.get(id(m))
+    if hit is not None and hit[0] is m:
+        return hit[1]
+    res = _simple_helper_(m)
+    _HELPER_CACHE[id(m)] = (m, res)
+    return res
+
+
+def _simple_helper_(m):
     if not isinstance(m.node, ast.FunctionDef) or m.node.decorator_list or len(m.node.body) > 12:
         return False
+    if m.node.args.vararg or m.node.args.kwarg:
+        return False              # its arguments cannot be bound (e.g. the log(*args, **kwargs) wrappers)
     for x in ast.walk(m.node):
         if isinstance(x, (ast.For, ast.While, ast.Try, ast.With, ast.Yield, ast.YieldFrom, ast.Await, ast.Lambda,
                           ast.AsyncFunctionDef, ast.ClassDef)) or (isinstance(x, ast.FunctionDef) and x is not m.node):
@@ -1768,6 +2235,8 @@ class _Sim(object):
         self.observe = set(observe)      # call tails whose evaluated arguments are recorded, never inlined
         self.track = set(track)          # self attributes whose stores make a helper method worth inlining
         self.seen = []                   # [(FuncInfo, ast.Call, [args], {kwargs})]
+        self.seen_heap = []              # the heap at each recorded call (parallel to .seen)
+        self.halt_at_loops = False       # True: a path that reaches a loop head ends there and is reported
         self.depth = 0
 
     # -- which helper methods are followed
@@ -1838,6 +2307,13 @@ class _Sim(object):
         if isinstance(e, (ast.Tuple, ast.List)):
             vals = [self.ev(fn, x, fr, hp) for x in e.elts]
             return tuple(vals) if isinstance(e, ast.Tuple) else vals
+        if isinstance(e, ast.Dict):
+            if any(k is None for k in e.keys):
+                return UNK
+            ks = [f(k) for k in e.keys]
+            if _has_unk(ks):
+                return UNK
+            return dict(zip(ks, [self.ev(fn, x, fr, hp) for x in e.values]))
         if isinstance(e, ast.Subscript):
             v = f(e.value)
             if isinstance(e.slice, ast.Slice):
@@ -1905,6 +2381,7 @@ class _Sim(object):
             star = False
         if tail in self.observe:
             self.seen.append((fn, e, args, kwargs))
+            self.seen_heap.append(copy.deepcopy(hp))
             return UNK
         if star:
             return UNK
@@ -1914,6 +2391,8 @@ class _Sim(object):
                 mem = hp[recv.name]
                 if not args and not kwargs and (e.func.attr + "()") in mem:
                     return mem[e.func.attr + "()"]
+                if not kwargs and (e.func.attr + "(*)") in mem:
+                    return mem[e.func.attr + "(*)"](hp, args)          # a modelled method of an abstract object
                 if recv.name == "self" and fn.cls is not None:
                     m = self._inlined(fn.cls).get(e.func.attr)
                     if m is not None:
@@ -1929,6 +2408,14 @@ class _Sim(object):
                             hp.update(keep)
                             return UNK
                 return UNK
+            if isinstance(recv, bytes) and not recv and e.func.attr == "join" and len(args) == 1 and not kwargs \
+                    and isinstance(args[0], (list, tuple)):
+                out = _Data()
+                for piece in args[0]:
+                    if not (isinstance(piece, _Data) or (isinstance(piece, bytes) and not piece)):
+                        return UNK
+                    out = out + piece
+                return out
             if recv is not UNK:
                 return UNK
         if isinstance(e.func, ast.Name) and e.func.id in _BUILTINS and e.func.id not in fr:
@@ -2023,7 +2510,12 @@ class _Sim(object):
                 for x in t.elts:
                     self.store(fn, x.value if isinstance(x, ast.Starred) else x, UNK, fr, hp)
         elif isinstance(t, ast.Subscript):
-            self.store(fn, t.value, UNK, fr, hp)      # an element store makes the container unknown
+            box = self.ev(fn, t.value, fr, hp)
+            key = self.ev(fn, t.slice, fr, hp) if not isinstance(t.slice, ast.Slice) else UNK
+            if isinstance(box, dict) and not _has_unk(key) and not isinstance(key, (list, dict)):
+                box[key] = v
+            else:
+                self.store(fn, t.value, UNK, fr, hp)      # otherwise an element store makes the container unknown
 
     def exec_stmt(self, fn, st, fr, hp):
         if isinstance(st, ast.Assign):
@@ -2080,6 +2572,10 @@ class _Sim(object):
                 if node is cfg.raise_exit or node.kind == "except":
                     break
                 if node.kind == "iter":
+                    if self.halt_at_loops and self.depth == 0:
+                        fr["<halted>"] = True
+                        out.append((None, fr, hp))
+                        break
                     raise AnalysisError("%s loops; its segment arithmetic cannot be evaluated" % short(fn))
                 nxt = [(cfg.nodes[d], lab) for (d, lab) in cfg.succ[node.id] if lab != "exc"]
                 if node.kind == "test":
